@@ -19,7 +19,7 @@ EXPLANATION = (
     "yields exactly k hard line breaks; Text is emitted verbatim. Markup loop: collect_markup_repr + convert_markup_impl over every "
     "child sequence of up to K nodes with symbolic kinds and whitespace texts, converters opaque: interior whitespace children map in "
     "order to blank / 1 hardline / k hardlines, other children appear once each in order, and expressions on a line that also holds "
-    "text are converted with breaks suppressed.  Nested markup composition and what the renderer does with the atoms are outside the claim.")
+    "text are converted with breaks suppressed.  Nested markup composition and what the renderer does with the atoms are outside the claim. Session 3: whole documents through the real printer, the interpreted renderer at narrow and wide widths and the REAL parser: a line that holds prose stays one line and none of its elements gains a line break inside (tables and multi-statement / commented code blocks, which the printer always expands, are exempt).")
 
 
 def run(S):
